@@ -28,6 +28,29 @@ func SetApd(r *apd.Decimal, d dec.D) {
 	} else {
 		r.Coeff.SetMathBigInt(d.C)
 	}
+	// One value in four (chosen by a hash of the value, so that a replayed
+	// case gets the same representation) arrives the way values arrive in a
+	// long-running program: through in-place arithmetic that went beyond 128
+	// bits and came back. Such a coefficient is heap-backed although it is
+	// small - including the heap-backed zero that no constructor produces.
+	if d.C != nil && d.C.BitLen() <= 128 && heapHistory(d) {
+		r.Coeff.Add(&r.Coeff, bigBump)
+		r.Coeff.Sub(&r.Coeff, bigBump)
+	}
+}
+
+var bigBump = new(apd.BigInt).SetMathBigInt(new(big.Int).Lsh(big.NewInt(1), 200))
+
+func heapHistory(d dec.D) bool {
+	h := uint64(d.E)*0x9e3779b97f4a7c15 ^ uint64(d.Form)<<7
+	if d.Neg {
+		h ^= 0x5555
+	}
+	if d.C.Sign() != 0 {
+		h ^= uint64(d.C.Bits()[0]) * 0xbf58476d1ce4e5b9
+	}
+	h ^= h >> 29
+	return h%4 == 0
 }
 
 // FromApd converts an apd.Decimal to the model. The coefficient is read as it
